@@ -882,6 +882,56 @@ def part_trig(payload):
     return part
 
 
+def part_power_sweep(payload):
+    """quantities raised to *arrays* of exponents that are not all equal: either refused, or every element is the SI magnitude of
+    the base raised to its own exponent (possible only for pure-number bases, whatever scale their unit carries: percent, km/m)"""
+    from unyt import unyt_array, unyt_quantity
+
+    known = core.Known("C04")
+    part = core.Part()
+    bases = [("dimensionless", 1.0), ("percent", 0.01), ("km/m", 1000.0), ("mm/km", 1e-6), ("cm/m", 0.01), ("m", None), ("kg/s", None), ("rad", None)]
+    exps = [[1.0, 2.0], [2.0, 0.5], [-1.0, 1.0], [3.0, 3.0, 2.0], [0.0, 1.0, 2.0], [2.0, 2.0]]
+    vals = payload["values"]
+    forms = {"**": lambda b, e: b ** e, "np.power": lambda b, e: np.power(b, e), "np.float_power": lambda b, e: np.float_power(b, e), "**=": lambda b, e: b.__ipow__(e),
+             "np.power(out=)": lambda b, e: np.power(b, e, out=np.zeros(np.broadcast(b, e).shape)), "** (exponent a dimensionless quantity)": lambda b, e: b ** unyt_array(e, "dimensionless")}
+    for u, sc in bases:
+        for e in exps:
+            for shape in ("array", "scalar"):
+                for fname, fn in forms.items():
+                    if shape == "scalar" and fname == "**=":
+                        continue
+                    x = np.array(vals[: len(e)], dtype=float)
+                    b = unyt_array(x.copy(), u) if shape == "array" else unyt_quantity(float(x[0]), u)
+                    part.ev()
+                    try:
+                        r = fn(b, np.array(e))
+                    except Exception as ex:
+                        part.count(f"power sweep: refused ({type(ex).__name__})")
+                        part.nt(("power-sweep-refused", u, tuple(e), shape, fname))
+                        continue
+                    uniform = len(set(e)) == 1
+                    xs = (x if shape == "array" else np.full(len(e), x[0]))
+                    if sc is None and not uniform:
+                        core.classify(known, part, f"C04:power-sweep:non-uniform-exponents-accepted-for-dimensional-base:{fname}", {"unit": u, "exponents": e, "shape": shape, "got": repr(r)[:120]})
+                        continue
+                    if sc is None:
+                        continue  # uniform exponents on dimensional bases are the random programs' subject
+                    ru = getattr(r, "units", None)
+                    if ru is not None and not ru.is_dimensionless:
+                        core.classify(known, part, f"C04:power-sweep:dimension:{fname}", {"unit": u, "exponents": e, "shape": shape, "got": repr(r)[:120]})
+                        continue
+                    got = np.asarray(r, dtype=float) * (float(ru.base_value) if ru is not None else 1.0)
+                    want = np.power(xs * sc, np.array(e))
+                    if got.shape != want.shape or not np.all(np.abs(got - want) <= 1e-12 * np.abs(want)):
+                        core.classify(known, part, f"C04:power-sweep:wrong-value:{fname}:{'uniform' if uniform else 'non-uniform'}-exponents",
+                                      {"unit": u, "values": xs.tolist(), "exponents": e, "shape": shape, "got_pure_number": got.tolist(), "want": want.tolist(), "result": repr(r)[:120]})
+                    else:
+                        part.nt(("power-sweep", u, tuple(e), shape, fname))
+    if len(part.samples) < 1:
+        part.sample({"bases": [b_[0] for b_ in bases], "exponent arrays": exps, "forms": sorted(forms)})
+    return part
+
+
 def run(ctx):
     ctx.rule = (
         "Hypothesis straight-line programs (2-4 leaves, up to 10 further steps; ~60 operation spellings: + - * / // % divmod-free "
@@ -902,6 +952,7 @@ def run(ctx):
     ]
     tv = [[0.0, 30.0, -45.0, 80.0], [1.5, -2.25, 0.125, 3.0], [90.0, 180.0, -90.0, 10.0], [(ctx.seed % 7) + 0.5, -(ctx.seed % 11) - 0.25, 60.0, 17.0]]
     ctx.merge(core.pmap(MOD, "part_trig", [{"units": ANGLE_UNITS, "values": [v]} for v in tv]))
+    ctx.merge(core.pmap(MOD, "part_power_sweep", [{"values": v} for v in ([50.0, 20.0, 4.0], [0.5, 8.0, 3.0], [2.0, 2.0, 2.0])]))
     n = ctx.pick(16000, 320000)
     ctx.merge(core.pmap(MOD, "part_random", [{"n": n // 16, "seed": ctx.seed * 1000 + i} for i in range(16)]))
 
